@@ -208,6 +208,19 @@ pub fn event_position(board: &BoardState, draw_table: &DrawTable) {
     });
 }
 
+// called by the search thread on entry: the root board and the repetition record it was handed
+pub fn event_search(board: &BoardState, draw_table: &DrawTable) {
+    with_sink(|f, seq| {
+        let _ = writeln!(
+            f,
+            "{{\"ev\":\"srch_start\",\"seq\":{},\"board\":{},\"table\":{}}}",
+            seq,
+            board_json(board),
+            table_json(draw_table)
+        );
+    });
+}
+
 pub fn event_go(board: &BoardState, slice_ms: u128, draw_table: &DrawTable) {
     with_sink(|f, seq| {
         let _ = writeln!(
